@@ -88,7 +88,7 @@ func main() {
 	nasLens := []int{0, 1, 127, 128, 1000, 5000}
 	nrep := 1
 	if *tier == "thorough" {
-		nrep = 12
+		nrep = 60
 		for i := 0; i < 40; i++ {
 			amfIds = append(amfIds, rg.Int63n(1<<40))
 			ranIds = append(ranIds, rg.Int63n(1<<32))
